@@ -5,6 +5,7 @@ import (
 	"fmt"
 	"math/rand"
 	"net"
+	"os"
 	"time"
 
 	"github.com/google/uuid"
@@ -46,7 +47,9 @@ func c07rawEst(c *h.Ctx, cs *h.Case, seed int64) {
 		&onet.ProtocolMsg{From: tokFrom, To: tokTo, MsgSlice: m1, MsgType: network.MessageType(&fix.M1{})},
 		&onet.ProtocolMsg{From: tokFrom, To: unk, MsgSlice: m3, MsgType: network.MessageType(&fix.M3{})},
 		&onet.ProtocolMsg{To: tokTo, MsgSlice: m3},
+		&onet.ProtocolMsg{From: tokFrom, MsgSlice: m3, MsgType: network.MessageType(&fix.M3{})},
 		&onet.ProtocolMsg{From: tokFrom},
+		&onet.ProtocolMsg{MsgSlice: m1},
 		&onet.RequestTree{TreeID: tree.ID, Version: 1},
 		&onet.RequestTree{TreeID: other.ID},
 		&onet.ResponseTree{TreeMarshal: other.MakeTreeMarshal(), Roster: other.Roster},
@@ -84,7 +87,7 @@ func c07rawEst(c *h.Ctx, cs *h.Case, seed int64) {
 		return
 	}
 	written := 0
-	for round := 0; round < 4; round++ {
+	for round := 0; round < 10; round++ {
 		conn, err := net.DialTimeout("tcp", addr, 2*time.Second)
 		if err != nil {
 			cs.Fail("listener-gone", err.Error())
@@ -94,10 +97,14 @@ func c07rawEst(c *h.Ctx, cs *h.Case, seed int64) {
 			conn.Close()
 			continue
 		}
-		for i := 0; i < 12; i++ {
+		for i := 0; i < 8; i++ {
 			b := append([]byte{}, bodies[r.Intn(len(bodies))]...)
 			lie := 0
-			switch r.Intn(8) {
+			how := r.Intn(8)
+			if i < 3 {
+				how = 7 // the connection starts with well-formed messages (absent parts included): an undecodable frame ends it
+			}
+			switch how {
 			case 0, 1: // a few bytes flipped (the type id in the first 16 bytes now and then)
 				for k := 0; k < 1+r.Intn(3) && len(b) > 0; k++ {
 					b[r.Intn(len(b))] ^= byte(1 << uint(r.Intn(8)))
@@ -139,6 +146,9 @@ func c07rawEst(c *h.Ctx, cs *h.Case, seed int64) {
 		conn.Close()
 	}
 	c.Count(fmt.Sprintf("rawest frames=%d", written/10*10))
+	if os.Getenv("B7B_DEBUG") != "" {
+		fmt.Fprintf(os.Stderr, "B7B written=%d rx=%d\n", written, cl.Servers[1].MsgRx())
+	}
 	// at rest: no lock held
 	for dl := time.Now().Add(5 * time.Second); time.Now().Before(dl) && cl.Servers[1].VerifRoutines() > 0; time.Sleep(time.Millisecond) {
 	}
@@ -175,4 +185,7 @@ func c07rawEst(c *h.Ctx, cs *h.Case, seed int64) {
 	}
 	cs.Impl = []string{"ok"}
 	cs.Outcome = "rawbytes-established survived"
+	if os.Getenv("B7B_DEBUG") != "" {
+		cs.Impl = []string{fmt.Sprintf("dbg written=%d rx=%d", written, cl.Servers[1].MsgRx())}
+	}
 }
